@@ -2,6 +2,7 @@ import Proofs.C14.Desc3
 import Proofs.C14.Bad
 import Proofs.C14.Get
 import Proofs.C14.Total
+import Proofs.C14.Get2
 /-! C14 proofs: zone tiling, the sentinel witness, non-vacuity data. (Parts: `Proofs/C14/*.lean`.) -/
 namespace PfC14
 open C14 Ring
@@ -86,5 +87,35 @@ theorem witness_ranges_new : rangesForInstance dWitness true 1 "A" = .ok [0, 0] 
   decide
 
 theorem witness_wf : WFR dWitness := ⟨by decide, by decide, by decide, by decide⟩
+
+/-! ### divergence witness: a LEAVING range owner under `Write` -/
+
+def divA : Inst := { id := "A", zone := "a", state := .LEAVING, tokens := [10] }
+def divB : Inst := { id := "B", zone := "a", tokens := [20] }
+def divC : Inst := { id := "C", zone := "b", tokens := [15] }
+/-- zone a: tokens 10 (A, LEAVING) and 20 (B); zone b: token 15 (C) -/
+def dDiverge : Desc := [divA, divB, divC]
+def cfgDiverge : C01.Cfg := { rf := 2, zoneAware := true }
+
+theorem diverge_zoneTokens : zoneTokens dDiverge "a" = [(10, divA), (20, divB)] := by
+  simp [zoneTokens, tokenInsts, dDiverge, divA, divB, divC, List.mergeSort, List.MergeSort.Internal.splitInTwo]
+
+theorem diverge_ranges_A : rangesForInstance dDiverge true 2 "A" = .ok [0, 9, 20, 4294967295] := by
+  have h1 : dDiverge.get? "A" = some divA := by decide
+  have h2 : (zonesOf dDiverge).length = 2 := by decide
+  have hz : divA.zone = "a" := rfl
+  simp only [rangesForInstance, rangesForInstanceWith, h1, h2, hz, diverge_zoneTokens]
+  decide
+
+theorem diverge_ranges_B : rangesForInstance dDiverge true 2 "B" = .ok [10, 19] := by
+  have h1 : dDiverge.get? "B" = some divB := by decide
+  have h2 : (zonesOf dDiverge).length = 2 := by decide
+  have hz : divB.zone = "a" := rfl
+  simp only [rangesForInstance, rangesForInstanceWith, h1, h2, hz, diverge_zoneTokens]
+  decide
+
+theorem diverge_get : (C01.specWalked cfgDiverge C01.opWrite dDiverge 5).map (·.id) = ["A", "C", "B"] ∧
+    (C01.specGet cfgDiverge C01.opWrite dDiverge 5 0).ok = true ∧
+    (C01.specGet cfgDiverge C01.opWrite dDiverge 5 0).instances.map (·.id) = ["C", "B"] := by decide
 
 end PfC14
